@@ -488,6 +488,15 @@ func cmdCheck(args []string) int {
 			verdict, detail := confirm(l, nat, ob.Pkg, ob.Fn, v, rf, o)
 			rec := ViolationEvidence{Harness: ob.Fn, Kind: v.Kind, Msg: cut(v.Msg, 400), Region: v.Region, Paths: g.n, Replay: rf, Verdict: verdict, Choices: v.Choices, Vars: v.Vars}
 			switch {
+			case !strings.HasPrefix(verdict, "CONFIRMED") && kf != nil:
+				// a recorded finding (confirmed when it was recorded) met again symbolically; this run's native replay -
+				// a timing-dependent race report, typically - did not show it
+				if !printedKF[kf.ID] {
+					printedKF[kf.ID] = true
+					fmt.Printf("KNOWN-FINDING: property=%s %s (%s; harness %s region %q; %d paths; native replay did not reproduce it in this run; replay=%s)\n", prop, kf.What, kf.ID, ob.Fn, v.Region, g.n, rf)
+				}
+				rec.Class = "known-finding " + kf.ID + " (not reproduced natively in this run)"
+				ev.Coverage.KnownFindings = append(ev.Coverage.KnownFindings, kf.ID)
 			case !strings.HasPrefix(verdict, "CONFIRMED"):
 				fmt.Printf("INCONCLUSIVE: property=%s %s: counterexample did not reproduce natively (%s): %s [%s]\n", prop, ob.Fn, verdict, cut(v.Msg, 200), rf)
 				if os.Getenv("VERIF_DEBUG") != "" {
